@@ -128,6 +128,7 @@ package db
 // its page number.
 //@ func (*db.Database).openTable
 //@   props C01 C04 C12
+//@   trusted seam: page cache + decode (see C08, C14)
 //@   modifies *
 //@   trusted-ensures err == nil ==> r0 != nil && iref(r0) != nil && pg(iref(r0)) == page
 
